@@ -32,6 +32,7 @@ type stubCase struct {
 	scenario string
 	method   *idl.Method
 	flags    int  // 0, 1 (more), 2 (oneway), 8 (upgrade)
+	lenient  bool // the implementation ignores the error of every reply but the last (a streaming implementation that does not check WantsMore)
 	viaSend  bool // flags == 8: pass varlink.Upgrade to the generated Send stub instead of calling the Upgrade stub (same wire form)
 	ins      []*gval
 	replies  []stubReply // what the implementation does, in order
@@ -82,7 +83,13 @@ func (d *stubDesc) genCases(g *Rng, perDesc int) {
 		switch r := g.Intn(12); {
 		case r < 5:
 			c.scenario = "reply"
-			switch g.Intn(5) {
+			switch g.Intn(6) {
+			case 5:
+				// a streaming implementation called WITHOUT more: the continues reply must be refused
+				// (nothing written), the final reply is the only frame
+				c.flags = 0
+				c.lenient = true
+				c.replies = []stubReply{{true, outs()}, {false, outs()}}
 			case 0:
 				c.flags = 1
 				c.replies = []stubReply{{true, outs()}, {false, outs()}}
@@ -544,6 +551,8 @@ func (d *stubDesc) driverSource() string {
 					fmt.Fprintf(&body, "\t\t\tcall.Continues = %v\n", r.continues)
 					if ri == len(c.replies)-1 {
 						fmt.Fprintf(&body, "\t\t\treturn call.Reply%s(ctx%s)\n", m.Name, args)
+					} else if c.lenient {
+						fmt.Fprintf(&body, "\t\t\t_ = call.Reply%s(ctx%s)\n", m.Name, args)
 					} else {
 						fmt.Fprintf(&body, "\t\t\tif err := call.Reply%s(ctx%s); err != nil {\n\t\t\t\treturn err\n\t\t\t}\n", m.Name, args)
 					}
@@ -578,7 +587,7 @@ func (d *stubDesc) driverSource() string {
 				if c.flags == 2 {
 					body.WriteString("\t\t\t_ = recv\n\t\t\trec.WaitCalls(1)\n\t\t}\n")
 				} else {
-					fmt.Fprintf(&body, "\t\t\tfor k := 0; k < %d; k++ {\n\t\t\t\t%s := recv(ctx)\n\t\t\t\trec.Result([]interface{}{%s}, fl, err2)\n\t\t\t\tif err2 != nil {\n\t\t\t\t\tbreak\n\t\t\t\t}\n\t\t\t}\n\t\t}\n", nrecv, lhs, vals)
+					fmt.Fprintf(&body, "\t\t\tfor k := 0; k < %d; k++ {\n\t\t\t\t%s := recv(ctx)\n\t\t\t\trec.Result([]interface{}{%s}, fl, err2)\n\t\t\t\tif err2 != nil || fl&varlink.Continues == 0 {\n\t\t\t\t\tbreak\n\t\t\t\t}\n\t\t\t}\n\t\t}\n", nrecv, lhs, vals)
 				}
 			}
 			body.WriteString("\t\tconn.Close()\n")
